@@ -240,23 +240,37 @@ def launchSuccess (env : Env) (w : World) : World × List NetAct :=
     let r := secLaunchSuccess env cfg w.disk
     ({ w with disk := r.1 }, match r.2 with | some e => [.event e] | none => [])
 
+def withChannel (cfg : Config) (chan : Option String) : Config :=
+  match chan with
+  | some c => { cfg with channel := c }
+  | none => cfg
+
+/-- `if let Some(rolled_back) = response.rolled_back_patch_numbers { roll_back_patches_if_needed }` -/
+def rollBackIfNeeded (env : Env) (cfg : Config) (d : Disk) (rb : Option (List Nat)) : Disk :=
+  match rb with
+  | some ns => secRollBack env cfg d ns
+  | none => d
+
+/-- `check_for_downloadable_update` after the request was built. -/
+def checkCore (env : Env) (cfg0 : Config) (d : Disk) (resp : Option CheckResp) : Disk × Bool :=
+  match resp with
+  | none => (d, false)
+  | some r =>
+    let d := rollBackIfNeeded env cfg0 d r.rolledBack
+    match r.patch with
+    | none => (d, false)
+    | some o =>
+      let s := shouldInstall env cfg0 d o.number
+      (s.1, decide (s.2 = .ok))
+
 /-- `shorebird_check_for_downloadable_update`; `resp = none`: the request failed. -/
 def check (env : Env) (w : World) (chan : Option String) (resp : Option CheckResp) :
     World × Bool × List NetAct :=
   match w.config with
   | none => (w, false, [])
   | some cfg0 =>
-    let cfg := match chan with | some c => { cfg0 with channel := c } | none => cfg0
-    let acts := [NetAct.check (mkCheckReq env cfg)]
-    match resp with
-    | none => (w, false, acts)
-    | some r =>
-      let d := match r.rolledBack with | some ns => secRollBack env cfg0 w.disk ns | none => w.disk
-      match r.patch with
-      | none => ({ w with disk := d }, false, acts)
-      | some o =>
-        let s := shouldInstall env cfg0 d o.number
-        ({ w with disk := s.1 }, decide (s.2 = .ok), acts)
+    let r := checkCore env cfg0 w.disk resp
+    ({ w with disk := r.1 }, r.2, [NetAct.check (mkCheckReq env (withChannel cfg0 chan))])
 
 /-- Outcome of `shorebird_update_with_result`. -/
 inductive UpdateOut where
@@ -287,47 +301,68 @@ structure UpdateScript where
   dl : Option Bytes
 deriving Repr, Inhabited
 
+/-- `update_internal` from the download to the install section. -/
+def installStage (env : Env) (cfg0 : Config) (base : Option Bytes) (d : Disk) (o : Offer)
+    (dl : Option Bytes) : Disk × UpdateOut :=
+  match dl with
+  | none => (d, .errDownload)
+  | some stream =>
+    match base with
+    | none => (d, .errBase)
+    | some base =>
+      match bipatchDecode stream base with
+      | .error _ => (d, .errInflate)
+      | .ok out =>
+        if ¬ checkHash out o.hash then (d, .errHash)
+        else if ¬ signatureOk env cfg0.key o.sig out then (d, .errSignature)
+        else (secInstall cfg0 d o out, .installed)
+
+/-- `update_internal` after a successful patch check. The `Bool`: the download was requested. -/
+def afterCheck (env : Env) (cfg0 : Config) (base : Option Bytes) (d : Disk) (r : CheckResp)
+    (dl : Option Bytes) : Disk × UpdateOut × Bool :=
+  let d := rollBackIfNeeded env cfg0 d r.rolledBack
+  if ¬ r.available then (d, .noUpdate, false)
+  else match r.patch with
+    | none => (d, .errBadResponse, false)
+    | some o =>
+      let s := shouldInstall env cfg0 d o.number
+      match s.2 with
+      | .knownBad => (s.1, .badPatch, false)
+      | .alreadyInstalled => (s.1, .noUpdate, false)
+      | .ok =>
+        let i := installStage env cfg0 base s.1 o dl
+        (i.1, i.2, true)
+
+/-- `update_internal` on the disk: events copied, queue cleared, then the rest.
+    Returns the disk, the outcome, the events sent first, and whether a download was requested. -/
+def updateCore (env : Env) (cfg0 : Config) (base : Option Bytes) (d : Disk) (sc : UpdateScript) :
+    Disk × UpdateOut × List Event × Bool :=
+  let r1 := secCopyEvents cfg0 d
+  let d := secClearEvents cfg0 r1.1
+  match sc.resp with
+  | none => (d, .errCheck, r1.2, false)
+  | some r =>
+    let a := afterCheck env cfg0 base d r sc.dl
+    (a.1, a.2.1, r1.2, a.2.2)
+
+/-- Network actions of an update, in order. -/
+def updateActs (env : Env) (cfg : Config) (sc : UpdateScript) (out : UpdateOut) (sent : List Event)
+    (dlRequested : Bool) : List NetAct :=
+  sent.map NetAct.event ++ [NetAct.check (mkCheckReq env cfg)] ++
+  (match dlRequested, sc.resp.bind (·.patch) with
+    | true, some o =>
+      NetAct.download o.url ::
+        (if out = .installed then [NetAct.event (mkEvent env cfg .download o.number none)] else [])
+    | _, _ => [])
+
 /-- `update_internal` (the update lock is free in the sequential semantics). -/
 def update (env : Env) (w : World) (chan : Option String) (sc : UpdateScript) :
     World × UpdateOut × List NetAct :=
   match w.config with
   | none => (w, .errNotInit, [])
   | some cfg0 =>
-    let cfg := match chan with | some c => { cfg0 with channel := c } | none => cfg0
-    let r1 := secCopyEvents cfg0 w.disk
-    let acts := r1.2.map NetAct.event
-    let d := secClearEvents cfg0 r1.1
-    let acts := acts ++ [NetAct.check (mkCheckReq env cfg)]
-    match sc.resp with
-    | none => ({ w with disk := d }, .errCheck, acts)
-    | some r =>
-      let d := match r.rolledBack with | some ns => secRollBack env cfg0 d ns | none => d
-      if ¬ r.available then ({ w with disk := d }, .noUpdate, acts)
-      else match r.patch with
-        | none => ({ w with disk := d }, .errBadResponse, acts)
-        | some o =>
-          let s := shouldInstall env cfg0 d o.number
-          let d := s.1
-          match s.2 with
-          | .knownBad => ({ w with disk := d }, .badPatch, acts)
-          | .alreadyInstalled => ({ w with disk := d }, .noUpdate, acts)
-          | .ok =>
-            let acts := acts ++ [NetAct.download o.url]
-            match sc.dl with
-            | none => ({ w with disk := d }, .errDownload, acts)
-            | some stream =>
-              match w.base cfg0 with
-              | none => ({ w with disk := d }, .errBase, acts)
-              | some base =>
-                match bipatchDecode stream base with
-                | .error _ => ({ w with disk := d }, .errInflate, acts)
-                | .ok out =>
-                  if ¬ checkHash out o.hash then ({ w with disk := d }, .errHash, acts)
-                  else if ¬ signatureOk env cfg0.key o.sig out then ({ w with disk := d }, .errSignature, acts)
-                  else
-                    let d := secInstall cfg0 d o out
-                    ({ w with disk := d }, .installed,
-                      acts ++ [NetAct.event (mkEvent env cfg .download o.number none)])
+    let r := updateCore env cfg0 (w.base cfg0) w.disk sc
+    ({ w with disk := r.1 }, r.2.1, updateActs env (withChannel cfg0 chan) sc r.2.1 r.2.2.1 r.2.2.2)
 
 /-- `shorebird_should_auto_update` -/
 def shouldAutoUpdate (w : World) : Bool :=
